@@ -20,7 +20,7 @@ Fixpoint build (zero : value) (o : cop) : res optic :=
 Definition model_off (sh : shape) (p : list nat) : nat :=
   match true_offset (sh_ty sh) p with Some o => (sh_base sh + o)%nat | None => 0%nat end.
 
-Definition morph_agrees (sh : shape) (isos : list (option ciso)) (before_t : list Z) (pf pi : bool)
+Definition morph_agrees (sh : shape) (isos : list (option ciso)) (before_t before_s2 : list Z) (pf pi : bool)
            (ds1 dt1 ds2 dt2 : list (Z * Z)) : bool :=
   let s := sh_base sh in
   let m0 := sh_before sh in
@@ -39,11 +39,11 @@ Definition morph_agrees (sh : shape) (isos : list (option ciso)) (before_t : lis
       | Ok w1 =>
           negb pf &&
           arenas_eqb sm (ms w1) (apply_diff m0 ds1) && arenas_eqb tm (mt w1) (apply_diff before_t dt1) &&
-          match morphism_inverse seq w1 with
+          match morphism_inverse seq (mkTwo before_s2 s (mt w1) s) with
           | Panic => pi
           | Ok w2 =>
               negb pi &&
-              arenas_eqb sm (ms w2) (apply_diff m0 ds2) && arenas_eqb tm (mt w2) (apply_diff before_t dt2)
+              arenas_eqb sm (ms w2) (apply_diff before_s2 ds2) && arenas_eqb tm (mt w2) (apply_diff before_t dt2)
           end
       end
   end.
@@ -66,7 +66,7 @@ Definition agrees (c : case) : bool :=
   | RLens o _ _ B _ _, OPanic => negb (is_ok (build (repeat 0%Z (sizeof B)) o))
   | RShape tys attr, OLenses obs => Derive.agrees (DeriveObs.mk sh VShape false tys attr [] (DLenses obs))
   | RShape tys attr, OPanic => Derive.agrees (DeriveObs.mk sh VShape false tys attr [] DPanic)
-  | RMorph isos, OMorph bt pf pi ds1 dt1 ds2 dt2 => morph_agrees sh isos bt pf pi ds1 dt1 ds2 dt2
+  | RMorph isos, OMorph bt bs2 pf pi ds1 dt1 ds2 dt2 => morph_agrees sh isos bt bs2 pf pi ds1 dt1 ds2 dt2
   | RMapKey init key v, OMap g0 g1 same after =>
       same && Z.eqb g0 (mapkey_get String.eqb 0%Z key init) &&
       Z.eqb g1 (mapkey_get String.eqb 0%Z key (mapkey_put String.eqb key init v)) &&
